@@ -5,12 +5,17 @@ PARAMS = {"lam", "L", "rho_max", "rho_crit", "v_free", "a", "turnrate", "alpha",
 GLOBALS = {"T", "tau", "eta", "kappa", "delta", "phi"}
 
 
+NEIGHBOUR_ROLES = {"SELF", "SELF.vsl", "UIN", "UIN*", "UOUT*", "DOUT", "DOUT*", "ORG", "DST"}
+
+
 def is_param(key) -> bool:
+    """model parameters of the element itself or of a model neighbour (and the global
+    ones); parameters of unrelated links are not allowed in a support"""
     if key[0] == "s":
         role, _, n = key[1].rpartition(".")
         if not role:
             return n in GLOBALS
-        return n in PARAMS
+        return n in PARAMS and role in NEIGHBOUR_ROLES
     return False
 
 
